@@ -37,6 +37,11 @@ def _pos(i):
     return np.array([float(i), float(i * i) / 4.0])
 
 
+def _pos_c(i):
+    # second scheme: the last of 3 / 4 points sits exactly on the centroid of the set
+    return np.array([(0.0, 0.0), (3.0, 0.0), (0.0, 3.0), (1.0, 1.0), (5.0, 7.0)][i])
+
+
 def _pt(v):
     return (round(float(v[0]), 9), round(float(v[1]), 9))
 
@@ -53,7 +58,7 @@ def draw(ctx, p):
     if p.get("mode") == "conc":
         # real hashing and real ordering: every injective assignment from a pool whose
         # insertion order differs from its sorted, string-sorted and set order
-        pool = [10, 9, -1, 3, "b"]
+        pool = [(0, 1), (1, 0), (2, 2), (0, 0)] if p.get("pool") == "tuples" else [10, 9, -1, 3, "b"]
         nl = [pool.pop(ctx.choose(f"lab{i}", len(pool))) for i in range(N)]
         el = [7, 2, "e", 0][:M]
         with stubs.uninstalled(), warnings.catch_warnings():
@@ -68,7 +73,10 @@ def draw(ctx, p):
         ctx.info["labels"] = nl
     else:
         net, nl, el, c = nets.build_H(ctx, shape, cls=CLS[p["cls"]], str_labels=p.get("labels", False))
-    pos = {nl[i]: _pos(i) for i in range(N)}
+    P = _pos_c if p.get("pos") == "centroid" else _pos
+    if p.get("pos") == "centroid" and N == 3:
+        P = lambda i: np.array([(0.0, 0.0), (2.0, 0.0), (1.0, 0.0)][i])  # collinear, the last one at the midpoint
+    pos = {nl[i]: P(i) for i in range(N)}
     if p["cls"] == "H":
         mo = [None, 1, 2, 3][ctx.choose("max_order", 4)]
     else:
@@ -90,14 +98,14 @@ def draw(ctx, p):
         polys = [frozenset(_pt(v) for v in q.vertices) for q in (poly_c.get_paths() if poly_c is not None else [])]
     finally:
         plt.close("all")
-    ctx.require(offs == [_pt(_pos(i)) for i in range(N)], "draw: node markers are not one per node at its position in node order")
+    ctx.require(offs == [_pt(P(i)) for i in range(N)], "draw: node markers are not one per node at its position in node order")
     E = [frozenset(e) for e in edges]
-    want_lines = sorted(sorted(_pt(_pos(i)) for i in e) for e in E if len(e) == 2 and (mo is None or mo >= 1))
+    want_lines = sorted(sorted(_pt(P(i)) for i in e) for e in E if len(e) == 2 and (mo is None or mo >= 1))
     if p["cls"] == "S":
         big = [e for e in set(E) if len(e) >= 3 and not any(e < f for f in E)]
     else:
         big = [e for e in E if len(e) >= 3 and (mo is None or len(e) - 1 <= mo)]
-    want_polys = sorted(sorted(_pt(_pos(i)) for i in e) for e in big)
+    want_polys = sorted(sorted(_pt(P(i)) for i in e) for e in big)
     ctx.require(sorted(sorted(s) for s in segs) == want_lines, "draw: lines are not exactly one per two-node edge joining its two members")
     ctx.require(sorted(sorted(q) for q in polys) == want_polys, "draw: polygons are not exactly one per larger edge (up to max_order) with its members' positions as vertex set")
 
@@ -119,11 +127,55 @@ def _finite2(v):
     return a.shape == (2,) and bool(np.isfinite(a).all())
 
 
+@harness("C20.dibary", raises_are_violations=True)
+def dibary(ctx, p):
+    """edge_positions_from_barycenters on a DiHypergraph: each edge at the mean of the
+    positions of its members (tail and head together, a node in both counted once)."""
+    s = p["shape"]
+    shape = (s[0], s[1], tuple((tuple(t), tuple(h)) for t, h in s[2]))
+    N, M, edges = shape
+    if any(not (set(t) | set(h)) for t, h in edges):
+        ctx.assume(False)
+    D, nl, el, c = nets.build_D(ctx, shape)
+    ctx.info["op"] = "edge_positions_from_barycenters(DiHypergraph)"
+    pos = {nl[i]: _pos(i) for i in range(N)}
+    with warnings.catch_warnings():
+        warnings.simplefilter("ignore")
+        ep = xgi.edge_positions_from_barycenters(D, pos)
+    ctx.require(nets.same(set(ep), set(D._edge)), "edge_positions_from_barycenters: not exactly one position per edge")
+    ok = True
+    for j, (t, h) in enumerate(edges):
+        want = np.mean([_pos(i) for i in sorted(set(t) | set(h))], axis=0)
+        got = [v for k, v in ep.items() if nets.same(k, el[j])]
+        ok = ok and len(got) == 1 and bool(np.allclose(got[0], want, atol=1e-12))
+    ctx.require(ok, "edge_positions_from_barycenters: a directed edge is not at the mean of its members' positions")
+
+
+NP_POOL = [np.int64(0), np.int64(2), 1.0, 7, "b"]
+
+
 @harness("C20.layout", raises_are_violations=True)
 def layout(ctx, p):
     shape = _shape(p["shape"])
     N, M, edges = shape
-    net, nl, el, c = nets.build_H(ctx, shape, cls=CLS[p["cls"]], str_labels=p.get("labels", False))
+    if p.get("mode") == "conc":
+        # labels that are integers without being `int` (numpy ints, integral floats), under real hashing
+        pool = list(NP_POOL)
+        nl = [pool.pop(ctx.choose(f"lab{i}", len(pool))) for i in range(N)]
+        el = [7, 2, "e", 0][:M]
+        with stubs.uninstalled(), warnings.catch_warnings():
+            warnings.simplefilter("ignore")
+            net = CLS[p["cls"]]()
+            net.add_nodes_from(nl)
+            for j, e in enumerate(edges):
+                if p["cls"] == "S":
+                    net.add_simplex([nl[i] for i in e])
+                else:
+                    net.add_edge([nl[i] for i in e], idx=el[j])
+            el = list(net._edge)
+        ctx.info["labels"] = [repr(x) for x in nl]
+    else:
+        net, nl, el, c = nets.build_H(ctx, shape, cls=CLS[p["cls"]], str_labels=p.get("labels", False))
     name = p["layout"]
     ctx.info["op"] = name
     with warnings.catch_warnings(), _layout_patch(ctx):
@@ -141,6 +193,8 @@ def layout(ctx, p):
             ctx.require(nets.same(set(ep), set(net._edge)), "edge_positions_from_barycenters: not exactly one position per edge")
             ok = True
             for j in range(M):
+                if p.get("mode") == "conc" and p["cls"] == "S":
+                    break  # simplex ids are assigned by the library here
                 want = np.mean([_pos(i) for i in edges[j]], axis=0)
                 got = [v for k, v in ep.items() if nets.same(k, el[j])]
                 ok = ok and len(got) == 1 and bool(np.allclose(got[0], want, atol=1e-12))
@@ -168,20 +222,30 @@ def spec(tier, seed):
                     units.append(("C20.draw", {"cls": cls, "shape": s, "labels": "str"}))
                 if 2 <= s[0] <= 3 and s[1] <= 3:
                     units.append(("C20.draw", {"cls": cls, "shape": s, "mode": "conc"}))
+                if 3 <= s[0] <= 4 and any(len(e) >= 3 for e in s[2]):
+                    # a member exactly on the centroid of its edge; tuple labels of equal length
+                    units.append(("C20.draw", {"cls": cls, "shape": s, "pos": "centroid"}))
+                    if s[0] == 3 and s[1] <= 2:
+                        units.append(("C20.draw", {"cls": cls, "shape": s, "mode": "conc", "pool": "tuples"}))
             for name in list(LAYOUTS) + ["bipartite_spring_layout", "edge_positions_from_barycenters"]:
                 if name == "bipartite_spring_layout" and cls == "S":
                     continue
                 units.append(("C20.layout", {"cls": cls, "shape": s, "layout": name}))
                 if s[0] == 2 and s[1] >= 1:
                     units.append(("C20.layout", {"cls": cls, "shape": s, "layout": name, "labels": "str"}))
+                if 2 <= s[0] <= 3 and 1 <= s[1] <= 2 and cls == "H":
+                    units.append(("C20.layout", {"cls": cls, "shape": s, "layout": name, "mode": "conc"}))
+    for s in (shapes.shapes_D_upto(2, 2) if tier == "quick" else shapes.shapes_D_upto(3, 2)):
+        if s[0] and s[1]:
+            units.append(("C20.dibary", {"cls": "D", "shape": s}))
     return {
         "units": units,
         "caps": {"paths": 20000, "wall": 900},
         "level": "other",
         "explanation": "reduced reach: coordinates are floats computed by numpy/networkx and artists are built by matplotlib, so geometry is not solver-decided; the solver quantifies node labels, edge ids (unbounded integers; one string label in the second mode) and max_order, i.e. every place where layout/drawing code looks a label up, compares it or uses it as a position. Positions handed to draw() are fixed points in convex position so that vertex sets identify edges.",
-        "bounds": {"shapes": {"H": f"{len(shH)} shapes", "S": f"{len(shS)} complexes"}, "max_order": [None, 1, 2, 3], "concrete label pool (real hashing/ordering, every injective assignment, N<=3)": [10, 9, -1, 3, "b"], "layouts": sorted(LAYOUTS) + ["bipartite_spring_layout", "edge_positions_from_barycenters"]},
+        "bounds": {"shapes": {"H": f"{len(shH)} shapes", "S": f"{len(shS)} complexes"}, "max_order": [None, 1, 2, 3], "positions": "convex position (parabola); second scheme with one member exactly on the centroid of its edge", "tuple label pool": [[0, 1], [1, 0], [2, 2], [0, 0]], "numeric-type label pool (layouts)": ["numpy.int64(0)", "numpy.int64(2)", 1.0, 7, "b"], "concrete label pool (real hashing/ordering, every injective assignment, N<=3)": [10, 9, -1, 3, "b"], "layouts": sorted(LAYOUTS) + ["bipartite_spring_layout", "edge_positions_from_barycenters"]},
         "assumptions": ["matplotlib Agg backend; collections returned by xgi.draw are read back through get_offsets/get_segments/get_paths",
                         "layout seeds fixed; finiteness is checked on the concrete result of each path",
                         "int shadow in xgi.drawing.layout so that isinstance(label, int) holds for a symbolic label"],
-        "outside": ["pixel-level rendering, colours, sizes, z-order", "draw_bipartite / draw_multilayer / directed drawings", "hull=True polygons", "networks without any edge of two or more nodes (the property excludes them for drawing)"],
+        "outside": ["pixel-level rendering, colours, sizes, z-order", "draw_bipartite / draw_multilayer / directed drawings (directed networks: barycentres only)", "hull=True polygons", "networks without any edge of two or more nodes (the property excludes them for drawing)"],
     }
